@@ -328,7 +328,7 @@ func c16InvoiceCorrect(c *core.Ctx) {
 		return true
 	})
 	if lit == nil {
-		c.Ob("C16-R2", fd.Name()+"#preceding-literal", fd.Decl.Pos(), false, "no org.DocumentRef literal built")
+		c.Ob("C16-R2", fd.Name()+"#preceding-literal", fd.Decl.Pos(), false, "NOT FOUND: no org.DocumentRef literal built")
 		return
 	}
 	var preVar *types.Var
